@@ -142,13 +142,14 @@ Proof.
 Qed.
 Print Assumptions C01_nonvacuous_hyps.
 
-Example C01_nonvacuous_run :
+Definition ex_run (s : strategy) : Prop :=
   let expected := arr2 2 [[7; 7]; [9; 7]; [7; 7]; [-129; 9]; [7; 7]] in
-  arr_map (fmap ex_o) ex_a = expected /\
-  (forall s, res_bind (from_array ex_a ex_o s) (fun idx => to_array idx None None) = Ok (expected, D_int16)) /\
-  (forall s, res_bind (from_array ex_a ex_o s) (fun idx => to_array idx None (Some D_int64)) = Ok (expected, D_int64)) /\
-  (forall s, res_bind (from_array ex_a ex_o s) (fun idx => to_array idx (Some [(7, 300); (9, -1); (-129, 0)]) None)
-             = Ok (arr2 2 [[300; 300]; [-1; 300]; [300; 300]; [0; -1]; [300; 300]], D_int16)) /\
-  (forall s, match from_array ex_a ex_o s with Ok idx => wf_b idx = true /\ length (entries idx) = 3%nat | Err _ => False end).
-Proof. vm_compute. repeat split; intros []; reflexivity || (split; reflexivity). Qed.
+  res_bind (from_array ex_a ex_o s) (fun idx => to_array idx None None) = Ok (expected, D_int16) /\
+  res_bind (from_array ex_a ex_o s) (fun idx => to_array idx None (Some D_int64)) = Ok (expected, D_int64) /\
+  res_bind (from_array ex_a ex_o s) (fun idx => to_array idx (Some [(7, 300); (9, -1); (-129, 0)]) None)
+     = Ok (arr2 2 [[300; 300]; [-1; 300]; [300; 300]; [0; -1]; [300; 300]], D_int16) /\
+  match from_array ex_a ex_o s with Ok idx => wf_b idx = true /\ length (entries idx) = 3%nat | Err _ => False end.
+Example C01_nonvacuous_run :
+  arr_map (fmap ex_o) ex_a = arr2 2 [[7; 7]; [9; 7]; [7; 7]; [-129; 9]; [7; 7]] /\ ex_run Where /\ ex_run RowScan.
+Proof. vm_compute. repeat split; reflexivity. Qed.
 Print Assumptions C01_nonvacuous_run.
